@@ -475,6 +475,97 @@ func c05(repo string, out *fg.Out) error {
 	if nRemove == 0 {
 		return fmt.Errorf("RecoverWithOptions: no os.Remove(walFile) in the file loop")
 	}
+	// every callback invocation sits in `if err := <cb>(…); err != nil { … allEntriesSucceeded = false … }`
+	// directly inside the entry loop (a callback handed to a helper, or an error branch that does not clear
+	// the flag, makes the fact false)
+	nGuardedCol, nGuardedRow, nCallsCol, nCallsRow := 0, 0, 0, 0
+	ast.Inspect(entryLoop, func(nd ast.Node) bool {
+		switch x := nd.(type) {
+		case *ast.CallExpr:
+			switch rf.Text(x.Fun) {
+			case "opts.ColumnarCallback":
+				nCallsCol++
+			case "callback":
+				nCallsRow++
+			}
+		case *ast.IfStmt:
+			as, ok := x.Init.(*ast.AssignStmt)
+			if !ok || len(as.Rhs) != 1 {
+				return true
+			}
+			call, ok := as.Rhs[0].(*ast.CallExpr)
+			if !ok {
+				return true
+			}
+			fn := rf.Text(call.Fun)
+			if fn != "opts.ColumnarCallback" && fn != "callback" {
+				return true
+			}
+			if rf.Text(x.Cond) != "err != nil" {
+				return true
+			}
+			clears := false
+			for _, st := range x.Body.List {
+				if a, ok := st.(*ast.AssignStmt); ok && len(a.Lhs) == 1 && rf.Text(a.Lhs[0]) == "allEntriesSucceeded" && rf.Text(a.Rhs[0]) == "false" {
+					clears = true
+				}
+			}
+			if clears {
+				if fn == "callback" {
+					nGuardedRow++
+				} else {
+					nGuardedCol++
+				}
+			}
+		}
+		return true
+	})
+	// any mention of a callback anywhere else in the function body (e.g. passed to a helper) is not covered
+	passedOn := strings.Count(rf.Text(rw), "opts.ColumnarCallback") - nCallsCol - 1 // -1: the `!= nil` dispatch test
+	cbErrClears := nCallsCol >= 1 && nCallsRow >= 2 && nGuardedCol == nCallsCol && nGuardedRow == nCallsRow && passedOn == 0
+
+	// ---- the WAL directory string: main() hands the SAME expression to NewWriter and NewRecovery, compares
+	// writer.CurrentFile() with the recovery's file list; both sides build paths as filepath.Join(dir, …) and
+	// neither rewrites the directory
+	wsrc, err := fg.ParseFile(repo, "internal/wal/wal.go")
+	if err != nil {
+		return err
+	}
+	wtxt := string(wsrc.Src)
+	mtxt := string(mainF.Src)
+	rtxt := string(rf.Src)
+	dirRewritten := false
+	ast.Inspect(wsrc.AST, func(nd ast.Node) bool {
+		if as, ok := nd.(*ast.AssignStmt); ok {
+			for _, l := range as.Lhs {
+				t := wsrc.Text(l)
+				if t == "cfg.WALDir" || t == "w.config.WALDir" || t == "config.WALDir" {
+					dirRewritten = true
+				}
+			}
+		}
+		return true
+	})
+	ast.Inspect(rf.AST, func(nd ast.Node) bool {
+		if as, ok := nd.(*ast.AssignStmt); ok {
+			for _, l := range as.Lhs {
+				if rf.Text(l) == "r.walDir" {
+					dirRewritten = true
+				}
+			}
+		}
+		return true
+	})
+	dirVerbatim := !dirRewritten &&
+		strings.Contains(wtxt, "newPath := filepath.Join(w.config.WALDir, filename)") &&
+		strings.Contains(wtxt, "w.currentPath = newPath") &&
+		strings.Contains(rtxt, `pattern := filepath.Join(r.walDir, "*.wal")`) &&
+		strings.Contains(rtxt, "walDir: walDir,") &&
+		strings.Contains(rtxt, "walFile == opts.SkipActiveFile") &&
+		strings.Contains(mtxt, "WALDir:       cfg.WAL.Directory,") &&
+		strings.Contains(mtxt, "walRecovery = wal.NewRecovery(cfg.WAL.Directory,") &&
+		strings.Contains(mtxt, "startupActiveFile = walWriter.CurrentFile()") &&
+		strings.Contains(mtxt, "SkipActiveFile:   startupActiveFile,")
 
 	// ---- parseColumnarEntry: which dynamic types of "m" are accepted
 	rd, err := fg.ParseFile(repo, "internal/wal/reader.go")
@@ -584,6 +675,10 @@ func c05(repo string, out *fg.Out) error {
 	fmt.Fprintf(L, "/-- RecoverWithOptions, per WAL file: every os.Remove(walFile) is after the loop that runs the callbacks -/\n")
 	fmt.Fprintf(L, "def removeAfterCallbacks : Bool := %v\n", removeAfter)
 	fmt.Fprintf(L, "def removeGuardedByAllSucceeded : Bool := %v\n", removeGuarded)
+	fmt.Fprintf(L, "/-- every callback call in the entry loop is `if err := cb(…); err != nil { … allEntriesSucceeded = false … }` -/\n")
+	fmt.Fprintf(L, "def callbackErrorsClearAllOk : Bool := %v\n", cbErrClears)
+	fmt.Fprintf(L, "/-- main() gives NewWriter and NewRecovery the same directory expression, both build file paths as\n    filepath.Join(dir, …) and neither rewrites dir, so SkipActiveFile = writer.CurrentFile() matches the listed path -/\n")
+	fmt.Fprintf(L, "def walDirUsedVerbatim : Bool := %v\n", dirVerbatim)
 	fmt.Fprintf(L, "/-- a flush call lies between the callbacks and os.Remove(walFile) (false in the current source) -/\n")
 	fmt.Fprintf(L, "def flushBeforeRemove : Bool := %v\n", flushBetween)
 	fmt.Fprintf(L, "end Arc.Generated.C05\n")
@@ -599,6 +694,8 @@ func c05(repo string, out *fg.Out) error {
 	out.JSON["elseMult"] = elseMult
 	out.JSON["removeAfterCallbacks"] = removeAfter
 	out.JSON["flushBeforeRemove"] = flushBetween
+	out.JSON["callbackErrorsClearAllOk"] = cbErrClears
+	out.JSON["walDirUsedVerbatim"] = dirVerbatim
 	return nil
 }
 
